@@ -1,5 +1,6 @@
 """Symbolic interpreter for the supported Python subset (direct style; forking through the decision log)."""
 import ast
+import os
 import builtins
 import enum
 import inspect
@@ -59,18 +60,23 @@ class SrcInfo:
                     break
         if target is None:
             raise Unsupported(f"source of {f.__qualname__} not found in {path}")
+        from . import alpha
+        if os.environ.get("VERIF_WRITE_BASELINE"):
+            alpha.write_reference(f, target)
+        # locals renamed since the contracts were written are mapped back (pure alpha-renaming only; see alpha.py)
+        target, self.alpha = alpha.normalise(f, target)
+        self.qualname = f"{f.__module__}:{f.__qualname__}"
         self.node = target
         self.path = path
         self.text = ast.get_source_segment(text, target)
-        # number the loops of the function in source order (cut points are keyed by ordinal, not by line)
+        # number the loops of the function in source order (cut points are keyed by ordinal, not by line); when the function no
+        # longer has the loops of the reference text one for one, a loop keeps the ordinal of the reference loop that iterates over
+        # the same expression, so that a loop added or removed elsewhere in the function does not shift the contracts of the others
         self.loop_ord = {}
-        k = 0
-        for n in ast.walk(target):
-            pass
-        for n in _walk_in_order(target):
-            if isinstance(n, (ast.For, ast.While, ast.ListComp, ast.GeneratorExp)):
-                k += 1
-                self.loop_ord[id(n)] = k
+        loops_here = [n for n in _walk_in_order(target) if isinstance(n, (ast.For, ast.While, ast.ListComp, ast.GeneratorExp))]
+        ords = alpha.loop_ordinals(f, loops_here)
+        for n, k in zip(loops_here, ords):
+            self.loop_ord[id(n)] = k
 
 
 def _walk_in_order(node):
